@@ -331,6 +331,10 @@ class HTTPConnection(_HTTPConnection):
             self._tunnel_host = None
             self._tunnel_port = None
             self._tunnel_scheme = None
+            # http.client keeps the request line and header lines of a request
+            # that was started but rejected before it was sent: drop them so they
+            # are not written in front of the next request on this connection.
+            del self._buffer[:]
 
     def putrequest(
         self,
